@@ -196,6 +196,7 @@ impl Real {
 
     /// Executes one op on the real crate; returns the canonical output (without state).
     pub fn exec(&mut self, op: &Op) -> String {
+        progress(&op.render());
         let before = match op {
             Op::New(..) | Op::Final => None,
             _ => self.backing.as_ref().map(|b| (b.snapshot(), self.state())),
